@@ -585,7 +585,7 @@ func (o *Obligation) query() string {
 
 func (g *Gen) declPkgOf(o *Obligation) string {
 	for _, d := range g.cs.Decls {
-		if (d.Kind == "stable" || d.Kind == "stablecells" || d.Kind == "stablemaps" || d.Kind == "stableelems" || d.Kind == "frozen" || d.Kind == "frozenelems") && len(d.Args) > 0 && strings.HasPrefix(o.Name, g.shortPkg(d.PkgPath)+"."+sanitize(d.Args[0])+"#") {
+		if (d.Kind == "stable" || d.Kind == "stablecells" || d.Kind == "stablemaps" || d.Kind == "stableelems" || d.Kind == "frozen" || d.Kind == "frozenelems" || d.Kind == "chaninv" || d.Kind == "readers" || d.Kind == "noreads") && len(d.Args) > 0 && (strings.HasPrefix(o.Name, g.shortPkg(d.PkgPath)+"."+sanitize(d.Args[0])+"#") || strings.HasPrefix(o.Name, g.shortPkg(d.PkgPath)+"."+d.Args[0]+"#")) {
 			return d.PkgPath
 		}
 	}
